@@ -53,6 +53,12 @@ def run(chk):
         sdW["scene"]["atmosphere"]["V_wind"] = wind
         ac = gen.simple_wing_aircraft(N=3, b=rng.uniform(3, 5), sweep=rng.choice([None, 12.0]), reid=rng.random() < 0.5)
         st, st2 = twin_states(MX, rng, chk.hist, wind)
+        if i % 4 == 1 and not isinstance(st["velocity"], list):
+            # an airspeed with neither alpha nor beta named (they default to zero): still relative to the air
+            for st_ in (st, st2):
+                st_.pop("alpha", None)
+                st_.pop("beta", None)
+            chk.count("airspeed-without-angles")
         if i % 2 == 0:
             # a position written with integers (as JSON files often have it): the wind there is still the wind
             pos_i = [rng.randint(-200, 200), rng.randint(-200, 200), -rng.randint(100, 3000)]
